@@ -27,7 +27,7 @@ def run_case(ctx, rng, case):
     node = regexgen.gen_pattern(rng, depth=rng.choice((0, 1, 2, 2, 3)), anchors=True,
                                 big_repeat=rng.random() < 0.3, unsupported=unsupported)
     pat = node.render()
-    if node.maxlen(40) > 4000:
+    if node.maxlen(100) > 6000:
         ctx.count("program_too_long_skipped")
         return
     try:
@@ -55,7 +55,7 @@ def run_case(ctx, rng, case):
     labels = sorted(node.unsupported_kinds())
     if case % 700 == 0 or (unsupported and case % 500 == 2):
         ctx.sample({"pattern": pat, "unsupported": labels})
-    for max_repeat in (32, 3, 0):
+    for max_repeat in (32, 3, 0, 100):
         rnd = G.Random()
         gen = G.RegexGenerator(rnd, max_repeat=max_repeat)
         probe = advrandom.Adversary("seeded", seed=rng.getrandbits(32))
